@@ -96,6 +96,19 @@ func genResp(rng *rand.Rand, tok string, status int, big bool) *respScript {
 			s.Fields = append(s.Fields, rawhttp.Field{Name: wire, Value: v})
 		}
 	}
+	// now and then a header block far beyond the usual few hundred bytes (17, 40 or 120 cookies of about 1 KiB, or one 20 KiB value)
+	hdrBig := ""
+	if rng.Intn(40) == 0 {
+		n := []int{17, 40, 120, 1}[rng.Intn(4)]
+		hdrBig = fmt.Sprintf("|hdr:%dKiB", n)
+		for k := 0; k < n; k++ {
+			sz := 1000
+			if n == 1 {
+				sz, hdrBig = 20000, "|hdr:one-20KiB-value"
+			}
+			s.Fields = append(s.Fields, rawhttp.Field{Name: "Set-Cookie", Value: fmt.Sprintf("big%d=%s; Path=/", k, strings.Repeat("abcdefghij", sz/10)+tok)})
+		}
+	}
 	s.Fields = append(s.Fields, rawhttp.Field{Name: "X-Tok", Value: tok})
 	noBody := s.Method == "HEAD" || status == 204 || status == 304
 	// hop-by-hop fields with tokens
@@ -188,7 +201,7 @@ func genResp(rng *rand.Rand, tok string, status int, big bool) *respScript {
 	s.DelayHdr, s.DelayBody, s.DelayRest, s.DelayTrl = d[rng.Intn(4)], d[rng.Intn(4)], d[rng.Intn(4)], d[rng.Intn(4)]
 	s.OneByte = rng.Intn(3) == 0
 	tr := fmt.Sprintf("d%du%d", len(s.Declared), len(s.Undecl))
-	s.Class = fmt.Sprintf("%s|%dxx|%s|body:%s|tr:%s|1xx:%d|rep:%v|hop:%x|1b:%v", s.Method, status/100, s.Framing, sizeClass(s.BodyLen), tr, len(s.Interim), rep, hopShape, s.OneByte && s.BodyLen > 0)
+	s.Class = fmt.Sprintf("%s|%dxx|%s|body:%s|tr:%s|1xx:%d|rep:%v|hop:%x|1b:%v", s.Method, status/100, s.Framing, sizeClass(s.BodyLen), tr, len(s.Interim), rep, hopShape, s.OneByte && s.BodyLen > 0) + hdrBig
 	return s
 }
 
